@@ -23,7 +23,9 @@
 (* from the code's topology groups is the domain universe of a spread        *)
 (* constraint (united with the spec's own lower bound ULow); the code's      *)
 (* counts are compared with the spec's [lo, hi] interval as a non-verdict    *)
-(* MODEL-DRIFT note (Note_C02_Counts).                                       *)
+(* MODEL-DRIFT note (Note_C02_Counts).  A pod admitted to a node that does   *)
+(* not carry the topology key at all is in no domain: no guard applies, the  *)
+(* admission is reported as the non-verdict note Note_C02_TargetLacksKey.    *)
 (***************************************************************************)
 EXTENDS TopologyGuards, Json, IOUtils
 
@@ -72,7 +74,10 @@ AdmissionChecks(ev) ==
         tg2 == [id \in DOMAIN tg \cup {x.id} |-> IF id = x.id THEN x ELSE tg[id]]
         W == [cfg |-> cfg, batch |-> batch, plc |-> plc, tg |-> tg2]
         U(s) == ULogged(ev, s)
-    IN Flat([i \in DOMAIN p.aff |-> ChkI(AffTermOK(Strict, W, p, x, p.aff[i]), "G_C02_Affinity", SigAff(Strict, W, p, x, p.aff[i], ev.eff),
+    IN Flat([i \in DOMAIN p.aff |-> Chk(TDom(cfg, x, p.aff[i].key) # {}, "Note_C02_TargetLacksKey", "affinity:" \o p.aff[i].key)])
+       \o Flat([i \in DOMAIN p.spread |-> IF p.spread[i].when # "DoNotSchedule" THEN <<>>
+                                           ELSE Chk(TDom(cfg, x, p.spread[i].key) # {}, "Note_C02_TargetLacksKey", "spread:" \o p.spread[i].key)])
+       \o Flat([i \in DOMAIN p.aff |-> ChkI(AffTermOK(Strict, W, p, x, p.aff[i]), "G_C02_Affinity", SigAff(Strict, W, p, x, p.aff[i], ev.eff),
                                       ToString([pod |-> ev.pod, term |-> i, parts |-> AffParts(Strict, W, p, x, p.aff[i])]))])
        \o Flat([i \in DOMAIN p.spread |->
                IF p.spread[i].when # "DoNotSchedule" THEN <<>>
